@@ -559,6 +559,28 @@ theorem model_trace_holds {c : Cfg} (w : WF c) (nIter : Nat) :
   have := c16Scan_model w nIter 0 (init c) (inv_init w)
   simpa [init] using this
 
+open Jinns.Holds in
+/-- every configuration `Holds.C16` counts as legal (hence: must not be rejected) is within the
+    hypotheses of the theorems above -/
+theorem legal_wf {c : Cfg} {sampT sampX bT bX dim : Nat} {ms : Bool}
+    (h : legalCfg c sampT sampX bT bX dim ms = true) : WF c := by
+  unfold legalCfg legalStore at h
+  simp only [Bool.and_eq_true, Bool.or_eq_true, Bool.not_eq_true', decide_eq_true_eq] at h
+  obtain ⟨⟨⟨_, he⟩, hT⟩, hX⟩ := h
+  refine ⟨he, ?_, ?_, ?_, ?_⟩
+  · intro k; rcases hT with h | h
+    · rw [k] at h; exact absurd h (by simp)
+    · omega
+  · intro k; rcases hX with h | h
+    · rw [k] at h; exact absurd h (by simp)
+    · omega
+  · intro k; rcases hT with h | h
+    · rw [k] at h; exact absurd h (by simp)
+    · omega
+  · intro k; rcases hX with h | h
+    · rw [k] at h; exact absurd h (by simp)
+    · omega
+
 /-! ### non-vacuity -/
 
 /-- a non-stationary configuration with unequal initial counts: time capacity 4, space capacity 2 -/
@@ -596,5 +618,8 @@ example : holdsC16 { exCfg with kind := .ode } [
     { stepped := true, iterNb := 1, cntT := some 2, cntX := none }] = some "active-count-times" := by decide
 open Jinns.Holds in
 example : holdsC16 exCfg ((trace exCfg 12).map (recOfObs exCfg)) = none := model_trace_holds exCfg_wf 12
+open Jinns.Holds in
+example : legalCfg exCfg 3 4 2 2 1 false = true ∧ rejectedCheck (legalCfg exCfg 3 4 2 2 1 false) =
+    some "valid-configuration-rejected" := by decide
 
 end Jinns.Rar
